@@ -153,6 +153,18 @@ def _find_tube_radius(
     return (delta_max + delta_min) / 2
 
 
+def _ks_quantile(q: float, n: int) -> float:
+    """
+    Quantile of the one-sided Kolmogorov-Smirnov statistic for n samples. The exact
+    computation in scipy loses accuracy beyond about 1e9 samples and returns NaN
+    beyond 1e11, e.g., for datasets with very many easy samples. There we use Smirnov's
+    asymptotic formula, whose relative error is of order 1/n.
+    """
+    if n > 10**8:
+        return np.sqrt(-np.log1p(-q) / (2.0 * n)) - 1.0 / (6.0 * n)
+    return scipy.stats.ksone.ppf(q, n)
+
+
 def simultaneous_joint_region_ci(
     scores: Scores,
     *,
@@ -202,8 +214,8 @@ def simultaneous_joint_region_ci(
     fnr = scores.fnr(thresholds)
     fpr = scores.fpr(thresholds)
 
-    fnr_delta = scipy.stats.ksone.ppf(1.0 - alpha / 2.0, scores.nb_all_pos)
-    fpr_delta = scipy.stats.ksone.ppf(1.0 - alpha / 2.0, scores.nb_all_neg)
+    fnr_delta = _ks_quantile(1.0 - alpha / 2.0, scores.nb_all_pos)
+    fpr_delta = _ks_quantile(1.0 - alpha / 2.0, scores.nb_all_neg)
 
     fnr_ci = np.stack([fnr - fnr_delta, fnr + fnr_delta], axis=-1)
     fpr_ci = np.stack([fpr - fpr_delta, fpr + fpr_delta], axis=-1)
